@@ -698,6 +698,9 @@ class Interp:
         if v is None:
             return "None"
         if isinstance(v, SInt):
+            if getattr(self.cfg, "structural_strings", False):
+                from .strings import name_number
+                return SStr(name_number(self, itos(v.t), v.t), origin_int=v)
             return SStr(itos(v.t), origin_int=v)
         if isinstance(v, SBool):
             return SStr(z3.If(v.t, z3.StringVal("True"), z3.StringVal("False")))
